@@ -27,6 +27,7 @@ type LogNode struct {
 	T      Term
 	Obl    *Obligation
 	depth  int
+	NL     bool // definitional equation of a nonlinear arithmetic term (may be dropped: abstraction)
 }
 
 type Obligation struct {
@@ -299,7 +300,11 @@ func collect(n *LogNode) []*LogNode {
 }
 
 // buildQuery produces the SMT text asking whether obligation `ob` can fail given its prefix.
-func (x *Exec) buildQuery(ob *LogNode) string {
+func (x *Exec) buildQuery(ob *LogNode) string { return x.buildQueryOpt(ob, false) }
+
+// buildQueryOpt with dropNL leaves out the defining equations of nonlinear terms: the named
+// constants become unconstrained, which only weakens the hypotheses (sound for proving).
+func (x *Exec) buildQueryOpt(ob *LogNode, dropNL bool) string {
 	var sb strings.Builder
 	sb.WriteString(x.prog.prelude())
 	for _, g := range x.globOrder {
@@ -312,6 +317,9 @@ func (x *Exec) buildQuery(ob *LogNode) string {
 		case KDecl:
 			fmt.Fprintf(&sb, "(declare-const %s %s)\n", n.Name, n.Sort)
 		case KAssume:
+			if dropNL && n.NL {
+				continue
+			}
 			fmt.Fprintf(&sb, "(assert %s)\n", n.T.S)
 		case KOblige:
 			// obligations already checked earlier on the path may be assumed
